@@ -44,6 +44,71 @@ impl Ctx {
     pub fn scaled(&self, n: u64) -> u64 { (n * self.scale / 100).max(1) }
 }
 
+/// Liveness watch: every worker publishes what it is executing; a monitor thread (main.rs) turns an operation
+/// that does not return within the deadline into a report (a stuck thread cannot be killed: the process exits).
+pub mod watch {
+    use std::collections::HashMap;
+    use std::sync::atomic::{AtomicBool, Ordering};
+    use std::sync::Mutex;
+    use std::thread::ThreadId;
+    use std::time::Instant;
+
+    pub struct Slot {
+        pub since: Instant,
+        pub what: String,
+        pub at_op: usize,
+        /// replay body of the history being executed (empty: none)
+        pub body: String,
+    }
+    pub static SLOTS: Mutex<Option<HashMap<ThreadId, Slot>>> = Mutex::new(None);
+    /// set while C13 ("every call returns a value or an error") is being judged
+    pub static JUDGING_RETURNS: AtomicBool = AtomicBool::new(false);
+    /// set by replay: the file being replayed
+    pub static REPLAY_FILE: Mutex<Option<String>> = Mutex::new(None);
+
+    pub fn judging_returns() -> bool { JUDGING_RETURNS.load(Ordering::SeqCst) }
+    pub fn set_judging_returns(v: bool) { JUDGING_RETURNS.store(v, Ordering::SeqCst) }
+
+    /// the slot is withdrawn when the guard goes out of scope, on every path including unwinding
+    pub struct Guard(());
+    impl Drop for Guard {
+        fn drop(&mut self) { leave(); }
+    }
+
+    #[must_use]
+    pub fn enter(what: &str, body: impl FnOnce() -> String) -> Guard {
+        let b = if judging_returns() { body() } else { String::new() };
+        let mut g = SLOTS.lock().unwrap_or_else(|e| e.into_inner());
+        let m = g.get_or_insert_with(HashMap::new);
+        m.insert(std::thread::current().id(), Slot { since: Instant::now(), what: what.to_string(), at_op: 0, body: b });
+        Guard(())
+    }
+    pub fn touch(at_op: usize, what: impl FnOnce() -> String) {
+        let mut g = SLOTS.lock().unwrap_or_else(|e| e.into_inner());
+        if let Some(m) = g.as_mut() {
+            if let Some(s) = m.get_mut(&std::thread::current().id()) {
+                s.since = Instant::now();
+                s.at_op = at_op;
+                s.what = what();
+            }
+        }
+    }
+    fn leave() {
+        let mut g = SLOTS.lock().unwrap_or_else(|e| e.into_inner());
+        if let Some(m) = g.as_mut() {
+            m.remove(&std::thread::current().id());
+        }
+    }
+    /// a published operation older than `limit_s`: (what, body, at_op, age)
+    pub fn overdue(limit_s: u64) -> Option<(String, String, usize, u64)> {
+        let g = SLOTS.lock().unwrap_or_else(|e| e.into_inner());
+        let m = g.as_ref()?;
+        let mut v: Vec<&Slot> = m.values().filter(|s| s.since.elapsed().as_secs() >= limit_s).collect();
+        v.sort_by(|a, b| a.what.cmp(&b.what));
+        v.first().map(|s| (s.what.clone(), s.body.clone(), s.at_op, s.since.elapsed().as_secs()))
+    }
+}
+
 /// Exit code for harness trouble: never a property verdict.
 pub const EXIT_HARNESS: i32 = 2;
 
